@@ -13,7 +13,7 @@ func init() {
 		Technique: "property-based testing (rapid): generated nestings of capturing constructs vs reference evaluator, comparing the exact main-writer output",
 		Rule: "programs nesting (depth <= 5) set-capture, filter sections with 1-3 recording filters, macro calls and block() around text and prints, captures inside loops, captured variables printed several times, more output after each construct; " +
 			"oracle: reference evaluator main-writer output and callback log (filter inputs are the captured strings). " +
-			"Non-trivial: >= 2 capturing constructs of different kinds were executed; distinct by program. Also: a failing print or include inserted, after some text, at a random statement of a random template (the output at the time of the error must be a prefix of the model output, so captured text must not have reached the main writer); large instances (150 nested captures, 1200 sibling captures, a 330 KB capture).",
+			"Non-trivial: >= 2 capturing constructs of different kinds were executed; distinct by program. Also: a failing print or include inserted, after some text, at a random statement of a random template (the output at the time of the error must be a prefix of the model output, so captured text must not have reached the main writer); a macro that loops and calls itself from the loop body (bounded depth) and reads loop variables, metadata, parameters and captures after the nested call; a block that prints nothing itself (text under conditions and loops on the surrounding loop's variables) rendered in place and through block(), captures and filter sections in every iteration; large instances (150 nested captures, 1200 sibling captures, a 330 KB capture).",
 		Assumptions: []string{"reference evaluator trusted inside the agreement region"},
 	}
 	sub := modelSub(p, "capture", compareOpts{}, func(cs *progCase, res *m.Result) bool {
